@@ -43,7 +43,11 @@ RULE = ("Alphabet: 33 plain line kinds + 19 hostile-text twins (same keyword / c
         "with blank and comment-only lines through parse_tags. The breadth-first search is repeated with the documented environment switch "
         "BEHAVE_STRIP_STEPS_WITH_TRAILING_COLON=yes (a private copy of behave/parser.py executed with the variable set, "
         "os.environ restored; 33 plain kinds + 2 step kinds whose text ends with ':') for parse_feature / parse_rule / "
-        "parse_scenario / parse_steps. A raised ParserError must also be printable (str()). Parser reuse (what Context.execute_steps does): ALL "
+        "parse_scenario / parse_steps. A raised ParserError must also be printable (str()). Library use: parse / parse_rule / "
+        "parse_scenario / parse_steps called on objects of Parser SUBCLASSES (own constructor signature with one "
+        "settings argument; signature-compatible constructor that counts its calls; no override) over all texts of "
+        "<= 2 lines: same invariant, same outcome as the module-level function, constructor run exactly once. "
+        "Parser reuse (what Context.execute_steps does): ALL "
         "sequences of <= 2 (quick) / <= 3 (thorough) calls of parse / parse_steps / parse_scenario / parse_rule / "
         "parse_tags on ONE Parser object over 26 (method, text) operations (valid Given/When/Then texts, texts "
         "starting with And / But / *, texts that raise mid-document, a doc-string left open, a table / tags / Examples "
@@ -646,6 +650,48 @@ def _types(x):
     return None
 
 
+# ================================================================ entry points through Parser SUBCLASSES
+def subclass_case(case):
+    """(kind, entry, a): the texts (), (a,), (a, b) for every plain line kind b, parsed by calling the entry point
+    method on an object of a Parser subclass; same invariant, same outcome as the module-level function, and the
+    constructor of the object runs exactly once"""
+    kind, entry, a = case[0], case[1], case[2]
+    hists = [case[3]] if len(case) > 3 else [(), (a,)] + [(a, b) for b in range(ps.PLAIN_NK)]
+    res = []
+    viol = {}
+    obs = []
+    for h in hists:
+        text = ps.text_of(h)
+        base, _, _, _, _ = ps.run_text(entry, text, len(h))
+        out, inits, _ = ps.run_subclass(kind, entry, text)
+        obs.append((out, inits))
+        where = "history [%s] through a Parser subclass (%s)" % (ps.names_of(h), kind)
+        found = []
+        if out[0] == "EXC":
+            found.append(({"subcheck": "subclass", "clause": "internal-exception", "subclass": kind, "entry": "parse_" + entry,
+                           "exc": out[1], "site": out[2]},
+                          "%s raised %s (in %s) instead of returning a model or raising ParserError; %s"
+                          % (ps.METHOD_OF_ENTRY[entry], out[1], out[2], where)))
+        else:
+            found += [(dict(d, subclass=kind), m) for d, m in ps.invariant(entry, text, out, 0, where)]
+            if out[:2] != base[:2] and base[0] != "EXC":
+                found.append(({"subcheck": "subclass", "clause": "differs-from-base-class", "subclass": kind, "entry": "parse_" + entry},
+                              "the module-level function gives %r, the subclass object %r; %s" % (base, out, where)))
+        if inits is not None and inits != 1:
+            found.append(({"subcheck": "subclass", "clause": "constructor-called-again", "subclass": kind, "entry": "parse_" + entry},
+                          "__init__ of the object ran %d times; %s" % (inits, where)))
+        for d, msg in found:
+            key = tuple(sorted(d.items()))
+            if key not in viol:
+                viol[key] = [d, msg, h, 0]
+            viol[key][3] += 1
+    res.append({"out": ("subclass", kind, entry), "n": len(hists), "dg": digest(obs), "nt": ("subclass",) + tuple(case[:3]),
+                "case": case})
+    for key, (d, msg, h, cnt) in sorted(viol.items()):
+        res.append({"v": [(d, msg)] * cnt, "n": 0, "case": (kind, entry, a, h)})
+    return res
+
+
 # ================================================================ driver
 def run(ctx):
     init_worker()
@@ -708,6 +754,10 @@ def run(ctx):
         hidden = [dict(k) for k in enum_classes - b["vclasses"]]
         ctx.guard(not hidden, "every violation class of the no-dedup enumeration of %s is also found by the search (%r)"
                   % (entry, hidden[:2]))
+    # ---- library use: the entry point methods on objects of Parser subclasses
+    ctx.bounds["subclasses"] = "3 subclass kinds x 4 entry points x all texts of <= 2 lines over the 33 plain kinds"
+    ctx.sweep(subclass_case, ((k, e, a) for k in ps.SUBCLASS_KINDS for e in ("feature", "rule", "scenario", "steps")
+                              for a in range(ps.PLAIN_NK)), chunk=8, name="entry points through Parser subclasses")
     # ---- histories of calls on one Parser object
     import itertools
     depth = 2 if ctx.quick else 3
